@@ -240,6 +240,8 @@ type PutItemInput struct {
 	ReturnItemCollectionMetrics *string           `type:"string" enum:"ReturnItemCollectionMetrics"`
 	ReturnValues                *string           `type:"string" enum:"ReturnValue"`
 	TableName                   *string           `min:"3" type:"string" required:"true"`
+
+	ReturnValuesOnConditionCheckFailure *string `type:"string"`
 }
 
 // UpdateItemInput represents the input of an UpdateItem operation.
@@ -273,6 +275,8 @@ type DeleteItemInput struct {
 	ReturnItemCollectionMetrics *string                            `type:"string" enum:"ReturnItemCollectionMetrics"`
 	ReturnValues                *string                            `type:"string" enum:"ReturnValue"`
 	TableName                   *string                            `min:"3" type:"string" required:"true"`
+
+	ReturnValuesOnConditionCheckFailure *string `type:"string"`
 }
 
 // ExpectedAttributeValue represents a condition to be compared with an attribute value
